@@ -188,6 +188,8 @@ func runC06(c *Ctx) {
 	runC06R8(c, "R8-requested-uri-verbatim")
 	r.Rule("R10-whitelist-reaches-validator-verbatim", "the operator's whitelist_domains entries are never rewritten between option loading and the redirect validator built from them (a normalising pass that re-joins host and port changes which host:port an entry permits; round 7)", 1)
 	runOptionListsVerbatim(c, "R10-whitelist-reaches-validator-verbatim", "WhitelistDomains")
+	r.Rule("R11-state-and-redirect-uri-sent-verbatim", "makeLoginURL sends the state (which carries the application redirect) and the redirect_uri exactly as handed in; the one escaping is url.Values.Encode's (round 8)", 2)
+	runLoginURLParamsVerbatim(c, "R11-state-and-redirect-uri-sent-verbatim")
 	r.Rule("R9-pages-keep-the-target", "the sign-in and error pages embed the redirect target they are handed, unchanged: every Redirect/RedirectURL of the page data is the caller's parameter (or option field) itself, or a constant", 3)
 	runC06R9(c, "R9-pages-keep-the-target")
 	runC06R5(c)
